@@ -48,13 +48,13 @@ def run_contract(fn, per_condition_timeout=120, per_path_timeout=30):
         out["state"] = "REFUTED"
         bad = next(m for m in out["messages"] if m["state"] in ("POST_FAIL", "POST_ERR", "EXEC_ERR"))
         out["message"] = bad["message"]
-        out["counterexample"] = parse_call(bad["message"], fn.__name__)
+        out["counterexample"] = parse_call(bad["message"], fn.__name__, fn)
     else:
         out["state"] = "INCONCLUSIVE:" + ",".join(sorted(set(states)))
     return out
 
 
-def parse_call(message, fname):
+def parse_call(message, fname, fn=None):
     """'... when calling f(a = 1, b = [2])' -> {'a': 1, 'b': [2]} (None when it cannot be parsed literally)."""
     i = message.find(fname + "(")
     if i < 0:
@@ -74,6 +74,13 @@ def parse_call(message, fname):
     try:
         call = ast.parse(src, mode="eval").body
         kw = {k.arg: ast.literal_eval(k.value) for k in call.keywords}
-        return {"kwargs": kw, "args": [ast.literal_eval(a) for a in call.args], "src": src}
+        args = [ast.literal_eval(a) for a in call.args]
+        if fn is not None and args:  # bind positional arguments to their parameter names
+            import inspect
+            names = list(inspect.signature(fn).parameters)
+            for n, v in zip(names, args):
+                kw.setdefault(n, v)
+            args = []
+        return {"kwargs": kw, "args": args, "src": src}
     except Exception:
         return {"src": src}
